@@ -15,6 +15,8 @@ pub enum Fault {
     Exit(i32),
     NotExecutable,
     Undefined,
+    /// the executable is killed by this signal (it never exits by itself)
+    Signal(i32),
 }
 
 #[derive(Debug, Clone, Serialize, Deserialize)]
@@ -47,7 +49,7 @@ pub fn strategy() -> impl Strategy<Value = Case> {
         vec(1usize..=4, 1..=4),
         vec(any::<u16>(), 12),
         1usize..=3,
-        vec((any::<u16>(), any::<u16>(), 0u8..8, 1i32..=255), 0..=3),
+        vec((any::<u16>(), any::<u16>(), 0u8..9, 1i32..=255), 0..=3),
         any::<bool>(),
         vec(0u64..40, 24),
         vec((0usize..DELAY_POINTS.len(), 0u64..60), 0..=3),
@@ -68,7 +70,8 @@ pub fn strategy() -> impl Strategy<Value = Case> {
                 let f = match kind {
                     0..=3 => Fault::Exit(if kind == 0 { 255 } else if kind == 1 { 1 } else { code }),
                     4 | 5 => Fault::NotExecutable,
-                    _ => Fault::Undefined,
+                    6 | 7 => Fault::Undefined,
+                    _ => Fault::Signal(if code % 2 == 0 { 9 } else { 15 }),
                 };
                 faults.push((c, t, f));
             }
@@ -108,6 +111,9 @@ fn counts(case: &Case, f: Option<&Fault>) -> bool {
         None => false,
         Some(Fault::Exit(_)) | Some(Fault::NotExecutable) => true,
         Some(Fault::Undefined) => case.fail_on_undefined,
+        // the statement is silent on whether a signal death fails the run: such cases are judged
+        // for truthfulness only (see `check`)
+        Some(Fault::Signal(_)) => false,
     }
 }
 
@@ -137,6 +143,10 @@ pub fn check(case: &Case, w: usize) -> CheckResult {
             (file, t.clone()),
             Behavior {
                 exit,
+                kill_self: match f {
+                    Some(Fault::Signal(s)) => Some(*s),
+                    _ => None,
+                },
                 sleep_ms: *ms,
                 out: vec![bb::Step::W(format!("out {} {}\n", c, t).into_bytes())],
                 ..Default::default()
@@ -186,6 +196,52 @@ pub fn check(case: &Case, w: usize) -> CheckResult {
     let mut by_key: BTreeMap<(String, String), Vec<&Trace>> = BTreeMap::new();
     for t in &traces {
         by_key.entry(bb::trace_key(&env, t)).or_default().push(t);
+    }
+    if case.faults.iter().any(|f| matches!(f.2, Fault::Signal(_))) {
+        // truthfulness only: whatever the run decides about a child killed by a signal, it must
+        // not call it `success`, and every other entry must still match what the helper recorded
+        let mut killed_started = false;
+        for (cmd, groups) in &run.results {
+            for g in groups {
+                for (t, r) in g {
+                    let key = (cmd.clone(), t.clone());
+                    let trs = by_key.get(&key).map(|v| v.as_slice()).unwrap_or(&[]);
+                    let signalled = matches!(fault_of(case, cmd, t), Some(Fault::Signal(_)));
+                    if signalled && !trs.is_empty() {
+                        killed_started = true;
+                    }
+                    match r.status.as_str() {
+                        "success" => {
+                            if !(trs.len() == 1 && trs[0].exit_code == Some(0)) {
+                                return viol_obs(
+                                    if signalled { "c06.signal.success" } else { "c06.success.untruthful" },
+                                    format!("{:?} reported success without a process that ran to completion with exit 0", key),
+                                    json!({"traces": trs, "fault": fault_of(case, cmd, t)}),
+                                );
+                            }
+                        }
+                        "error" => {
+                            if let Some(code) = r.code {
+                                if !(trs.len() == 1 && trs[0].exit_code == Some(code)) {
+                                    return viol_obs(
+                                        "c06.error.code",
+                                        format!("{:?} reported error code {} but the process did not exit with it", key, code),
+                                        json!({"traces": trs}),
+                                    );
+                                }
+                            }
+                        }
+                        "undefined" | "not_executable" | "skipped" => {
+                            if !trs.is_empty() {
+                                return viol("c06.nostart.started", format!("{:?} reported {} but a process was started", key, r.status));
+                            }
+                        }
+                        _ => {}
+                    }
+                }
+            }
+        }
+        return Ok(CaseInfo::new(killed_started).class("fault=signal").inv(env.invocations));
     }
     // locate the first failing (command, group) in plan order, as the result shows the plan
     let mut first_fail: Option<(usize, usize)> = None;
@@ -326,7 +382,7 @@ pub fn check(case: &Case, w: usize) -> CheckResult {
                                 return viol("c06.fault.undefined", format!("{:?} is undefined but is reported {:?}", key, r.status));
                             }
                         }
-                        None => {}
+                        Some(Fault::Signal(_)) | None => {}
                     }
                 }
             }
@@ -357,6 +413,7 @@ pub fn check(case: &Case, w: usize) -> CheckResult {
             Fault::Exit(_) => "fault=exit",
             Fault::NotExecutable => "fault=not_executable",
             Fault::Undefined => "fault=undefined",
+            Fault::Signal(_) => "fault=signal",
         });
     }
     Ok(info)
